@@ -29,6 +29,7 @@ type c03Case struct {
 	expectRcode int
 	res         *AskResult
 	took        time.Duration
+	lateFIN     bool // DoQ: the client ends its side of the stream only after it has read the response
 }
 
 type c03Env struct {
@@ -226,7 +227,7 @@ func c03GenQuery(t *rapid.T, tok int, outcome string) (*vfkit.Msg, bool) {
 }
 
 func TestVfC03(t *testing.T) {
-	st := vfkit.Stats("TestVfC03", "batches of (listener kind in 8, decodable QR=0 query with any opcode/flags/0-3 questions/any type+class/mixed-case names up to 255 octets/extra records/OPT, upstream outcome in {reply, error rcode, garbage, truncated frame, accept-then-close, dead port, silence, no rule, rule without action}) against two proxies (cache off/on), all in flight together; with the cache on up to 8 answered questions per batch are then asked again (other ID, inverted letter case, other header bits, OPT toggled, any listener); oracle per query: exactly one response within 8 s with the query's ID/opcode/RD, QR=1, RA=1, <=1 question equal to the first one, rcode per reference (NOTIMP / REFUSED / upstream's / SERVFAIL); non-trivial = outcome other than a plain reply, or unsupported query")
+	st := vfkit.Stats("TestVfC03", "batches of (listener kind in 8, decodable QR=0 query with any opcode/flags/0-3 questions/any type+class/mixed-case names up to 255 octets/extra records/OPT, upstream outcome in {reply, error rcode, garbage, truncated frame, accept-then-close, dead port, silence, no rule, rule without action}) against two proxies (cache off/on), all in flight together, one DoQ client in three ending its side of the stream only after the response; with the cache on up to 8 answered questions per batch are then asked again (other ID, inverted letter case, other header bits, OPT toggled, any listener); oracle per query: exactly one response within 8 s with the query's ID/opcode/RD, QR=1, RA=1, <=1 question equal to the first one, rcode per reference (NOTIMP / REFUSED / upstream's / SERVFAIL); non-trivial = outcome other than a plain reply, or unsupported query")
 	defer vfkit.Flush()
 	env := c03Setup(t)
 	defer func() {
@@ -252,6 +253,7 @@ func TestVfC03(t *testing.T) {
 			tok++
 			c := &c03Case{token: tok}
 			c.listener = rapid.SampledFrom(AllListenerKinds).Draw(t, "listener")
+			c.lateFIN = c.listener == "quic" && rapid.IntRange(0, 2).Draw(t, "doqLateFIN") == 0
 			c.outcome = rapid.SampledFrom(outcomes).Draw(t, "outcome")
 			c.rcode = uint16(rapid.IntRange(0, 15).Draw(t, "upRcode"))
 			c.model, c.unsupported = c03GenQuery(t, tok, c.outcome)
@@ -287,6 +289,7 @@ func TestVfC03(t *testing.T) {
 			go func(c *c03Case) {
 				defer wg.Done()
 				a := NewAsker(env.ip[cacheOn], "")
+				a.DoQLateFIN = c.lateFIN
 				defer a.Close()
 				start := time.Now()
 				c.res = a.Ask(c.listener, c.query, 9*time.Second, 40*time.Millisecond)
